@@ -299,6 +299,17 @@ def run_shard(rec, tier, seed, shard, nshards):
             sel = A.observation_mask.copy()
             sel[int(rng.choice(np.flatnonzero(~A.observation_mask)))] = True
             cases.append(("masked-rows", lambda: fresh().add_observations(A.subset(sel))))
+            # views of type Plate spanning an observed and a masked plate, in both orders (combine / concat / invert)
+            obs_p = [p for p in A.plates if p.is_observed]
+            un_p = [p for p in A.plates if not p.is_observed]
+            if obs_p and un_p:
+                po, pu = obs_p[int(rng.integers(len(obs_p)))], un_p[int(rng.integers(len(un_p)))]
+                from batchie.data import ScreenSubset as _SS
+                cases.append(("masked-rows", lambda: fresh().add_observations(po.combine(pu))))
+                cases.append(("masked-rows", lambda: fresh().add_observations(pu.combine(po))))
+                cases.append(("masked-rows", lambda: fresh().add_observations(_SS.concat([po, pu]))))
+                if len(A.plates) > 1:
+                    cases.append(("masked-rows", lambda: fresh().add_observations(po.invert()) if not po.invert().observation_mask.all() else (_ for _ in ()).throw(ValueError("all observed"))))
             # (b)/(c) negative / NaN observation among the observed rows
             for bad, val in (("negative", -0.25), ("nan", float("nan"))):
                 o = kw["observations"].copy()
